@@ -15,7 +15,9 @@ The model mirrors the REPAIRED code (fixes/C07-*.diff):
 * the `replace` pass runs only when no strict attempt returned a string (unrepaired: `if not u`
   also takes `""` for failure, dammit.py:817);
 * `declared_html_encoding` looks for the declaration on demand (unrepaired: `None` unless the
-  generator was driven as far as the declaration step, dammit.py:986).
+  generator was driven as far as the declaration step, dammit.py:986);
+* a UTF-16 byte-order mark is recognised whatever follows it except `00 00` (unrepaired: only when
+  at least four bytes are present, so `b"\xff\xfe"` alone decoded as windows-1252 "ÿþ").
 
 Not modelled: `chardet` (absent; `chardet_module is None`), the smart-quote hook of `_convert_from`
 (inert for `smart_quotes_to=None`; property C19), `str.lower()` beyond ASCII (names are ASCII). -/
@@ -45,16 +47,29 @@ structure Codecs where
   /-- `str(data, name, "replace")`; `none` = raised -/
   decodeReplace : Name → Bytes → Option PStr
 
-/-! ## strip_byte_order_mark (dammit.py:645-681) -/
+/-! ## strip_byte_order_mark (dammit.py:645-673, repaired) -/
 
 def stripBom (data : Bytes) : Bytes × Option Name :=
+  if data.take 2 = [0xfe, 0xff] ∧ (data.drop 2).take 2 ≠ [0, 0] then
+    (data.drop 2, some utf16be)                                   -- :658-660
+  else if data.take 2 = [0xff, 0xfe] ∧ (data.drop 2).take 2 ≠ [0, 0] then
+    (data.drop 2, some utf16le)                                   -- :661-663
+  else if data.take 3 = [0xef, 0xbb, 0xbf] then (data.drop 3, some utf8)          -- :664
+  else if data.take 4 = [0x00, 0x00, 0xfe, 0xff] then (data.drop 4, some utf32be) -- :667
+  else if data.take 4 = [0xff, 0xfe, 0x00, 0x00] then (data.drop 4, some utf32le) -- :670
+  else (data, none)
+
+/-- the UNREPAIRED function (fixes/C07-utf16-bom-short-input.diff): both UTF-16 tests also demanded
+    `len(data) >= 4`, so a UTF-16 mark followed by fewer than two bytes was not recognised. Kept for
+    the witness theorem `Props.C07.old_length_test_missed_short_utf16`. -/
+def stripBomOld (data : Bytes) : Bytes × Option Name :=
   if data.length ≥ 4 ∧ data.take 2 = [0xfe, 0xff] ∧ (data.drop 2).take 2 ≠ [0, 0] then
-    (data.drop 2, some utf16be)                                   -- :658-664
+    (data.drop 2, some utf16be)
   else if data.length ≥ 4 ∧ data.take 2 = [0xff, 0xfe] ∧ (data.drop 2).take 2 ≠ [0, 0] then
-    (data.drop 2, some utf16le)                                   -- :665-671
-  else if data.take 3 = [0xef, 0xbb, 0xbf] then (data.drop 3, some utf8)          -- :672
-  else if data.take 4 = [0x00, 0x00, 0xfe, 0xff] then (data.drop 4, some utf32be) -- :675
-  else if data.take 4 = [0xff, 0xfe, 0x00, 0x00] then (data.drop 4, some utf32le) -- :678
+    (data.drop 2, some utf16le)
+  else if data.take 3 = [0xef, 0xbb, 0xbf] then (data.drop 3, some utf8)
+  else if data.take 4 = [0x00, 0x00, 0xfe, 0xff] then (data.drop 4, some utf32be)
+  else if data.take 4 = [0xff, 0xfe, 0x00, 0x00] then (data.drop 4, some utf32le)
   else (data, none)
 
 /-! ## the declaration regexes (dammit.py:79-95) and find_declared_encoding (:683-731)
